@@ -54,13 +54,14 @@ def _transform_parallel(
     # Start up the workers
 
     done_event = mp.Event()
+    error_event = mp.Event()
     queue = mp.Queue(maxsize=16 * parallel)
     workers = []
 
     for _ in range(parallel):
         w = mp.Process(
             target=_transform_mp_worker,
-            args=(queue, done_event, pio_in, pio_out, make_buf, do_one),
+            args=(queue, done_event, error_event, pio_in, pio_out, make_buf, do_one),
         )
         w.daemon = True
         w.start()
@@ -82,8 +83,14 @@ def _transform_parallel(
     for w in workers:
         w.join()
 
+    from .par_util import raise_if_worker_failed
 
-def _transform_mp_worker(queue, done_event, pio_in, pio_out, make_buf, do_one):
+    raise_if_worker_failed(error_event)
+
+
+def _transform_mp_worker(
+    queue, done_event, error_event, pio_in, pio_out, make_buf, do_one
+):
     """
     Do the colormapping.
     """
@@ -106,7 +113,15 @@ def _transform_mp_worker(queue, done_event, pio_in, pio_out, make_buf, do_one):
                 break
             continue
 
-        do_one(buf, pos, pio_in, pio_out)
+        # Keep draining the queue if processing fails, so that the producer is
+        # never left blocked; the parent raises after joining the workers.
+        try:
+            do_one(buf, pos, pio_in, pio_out)
+        except Exception:
+            import traceback
+
+            traceback.print_exc()
+            error_event.set()
 
 
 # float-to-RGB(A), with a generalized float-to-unit transform
